@@ -489,7 +489,7 @@ def gen_cfg(rng):
     return dict(dsc=rng.choice([10 ** 6, 10 ** 12, 10 ** 12, 10 ** 18]), same=rng.random() < 0.65,
                 rate=rng.choice([1000, 10 ** 6, 10 ** 9, 10 ** 18, log_amount(rng, 10 ** 15) + 100]),
                 epoch0=rng.choice([0, 5, 5, 13, 100]), scale=rng.choice([1, 10 ** 3, 10 ** 6, 10 ** 12, 10 ** 18]),
-                late_factors=rng.random() < 0.15)
+                late_factors=rng.random() < 0.2)
 
 
 def gen_factors(rng, scale):
@@ -499,8 +499,11 @@ def gen_factors(rng, scale):
             rng.choice([1, 1, 10, 1000, 10 ** 6]), rng.choice([1, 1, 2, 100, scale, 5 * scale])]
 
 
-def gen_energy(rng, scale):
+def gen_energy(rng, scale, fac=None):
     cls = rng.random()
+    if fac is not None and rng.random() < 0.22:
+        # boundary of the minimum-energy threshold of the latest factors; no tokens, so it does not decay
+        return max(0, fac[3] + rng.choice([0, 0, 0, -1, 1])), 0
     tok = log_amount(rng, 10 ** 9) * rng.choice([1, 1, scale])
     if cls < 0.62:
         return tok * rng.randint(60, 1440) + rng.randint(0, tok), tok       # long lock
@@ -539,6 +542,12 @@ def gen_user_op(rng, w, c, kind=None, must=None):
 
     if kind == "Enter":
         amt = rng.choice([1, rng.randint(1, 100), scale, log_amount(rng, 10 ** 6) * scale, log_amount(rng, 10 ** 6) * scale])
+        cfgo = w.last.get("cfg")
+        if cfgo is not None and rng.random() < 0.2:
+            # total position exactly at (or one off) the minimum farm amount of the latest factors
+            need = cfgo[1][-1][4] - w.last["utot"].get(c, 0)
+            if need + 1 > 0:
+                amt = max(1, need + rng.choice([0, 0, -1, 1]))
         adds = pick([1, 1, 2]) if (mine and (must is not None or rng.random() < 0.3)) else []
         return ["Enter", c, amt, adds]
     if kind in ("Claim", "Compound"):
@@ -580,13 +589,26 @@ def gen_op(rng, w):
         first = ["SetPct", OWNER, rng.choice([2500, 2500, 5000, 1, 100, 9999, 10000])]
         second = ["SetFactors", OWNER, gen_factors(rng, scale)]
         if cfg["late_factors"]:
-            return first                                   # percentage > 0 while no factors are configured
+            # percentage > 0 while no factors are configured: users enter / settle / compound before the first setting
+            for u in USERS:
+                if rng.random() < 0.9:
+                    en, tok = gen_energy(rng, scale, second[2])
+                    script.append(["Energy", u, en, tok])
+            for u in rng.sample(USERS, rng.choice([2, 3, 4])):
+                script.append((lambda uu: (lambda r, ww: gen_user_op(r, ww, uu, "Enter")))(u))
+            for _ in range(rng.choice([2, 3, 4])):
+                script.append((lambda r, ww: gen_user_op(r, ww, r.choice(USERS), r.choice(["Compound", "Compound", "Claim", "Exit", "Compound", "ClaimBoosted"]))))
+            if rng.random() < 0.5:
+                script.append(["Advance", 10, EPOCHS_IN_WEEK])
+                script.append((lambda r, ww: gen_user_op(r, ww, r.choice(USERS), r.choice(["Compound", "Claim", "Enter"]))))
+            script.append(second)
+            return first
         if rng.random() < 0.3:
             first, second = second, first
         script.append(second)
         for u in USERS:
             if rng.random() < (0.95 if u <= 3 else 0.5):
-                en, tok = gen_energy(rng, scale)
+                en, tok = gen_energy(rng, scale, second[2] if second[0] == "SetFactors" else first[2])
                 script.append(["Energy", u, en, tok])
         for u in rng.sample(USERS, rng.choice([2, 3, 3, 4])):
             script.append((lambda uu: (lambda r, ww: gen_user_op(r, ww, uu, "Enter")))(u))
@@ -608,6 +630,9 @@ def gen_op(rng, w):
         if users_with_pos and rng.random() < 0.85:
             for u in sorted(set(rng.choice(weighted) for _ in range(rng.choice([1, 2, 3, 3])))):
                 script.append((lambda uu: (lambda r, ww: gen_user_op(r, ww, uu, r.choice(["ClaimBoosted", "Claim", "ClaimBoosted", "Enter", "Exit", "Merge", "Compound"]))))(u))
+        # ... sometimes right after new factors were set, so that the completed week keeps the old ones
+        if o["cfg"] is not None and rng.random() < 0.3:
+            script.insert(0, ["SetFactors", OWNER, gen_factors(rng, scale)])
         # ... or by a position changing hands in the new week before the receiver has settled the old one
         if users_with_pos and rng.random() < 0.6:
             src = rng.choice(users_with_pos)
@@ -624,14 +649,14 @@ def gen_op(rng, w):
         return ["Advance", rng.choice([1, 10, 100, 1000]), EPOCHS_IN_WEEK * weeks + rng.choice([0, 0, 0, 1, 3])]
     if roll < 0.20:
         u = rng.choice(USERS)
-        en, tok = gen_energy(rng, scale)
+        en, tok = gen_energy(rng, scale, o["cfg"][1][-1] if o["cfg"] is not None else None)
         return ["Energy", u, en, tok]
     # ---- admin
     if roll < 0.30:
         kind = rng.random()
         who = rng.choice([OWNER] * 5 + USERS[:2])
         if kind < 0.30:
-            return ["SetFactors", who, gen_factors(rng, scale) if rng.random() < 0.85 else [1, 1, 1, rng.choice([0, 1]), rng.choice([0, 1])]]
+            return ["SetFactors", who, gen_factors(rng, scale) if rng.random() < 0.78 else [1, 1, 1, rng.choice([0, 0, 1]), rng.choice([0, 1])]]
         if kind < 0.45:
             return ["SetPct", who, rng.choice([0, 1, 2500, 2500, 5000, 9999, 10000, 10001])]
         if kind < 0.80:
